@@ -305,4 +305,12 @@ def jobs(tier, seed):
         js.append((f"{cfg}", "checks.C17", "run_sliding", {"cfg": cfg}))
     for cfg in (["RubiksCube@2", "RubiksCube@3"] if tier == "quick" else ["RubiksCube@2", "RubiksCube@3", "RubiksCube@4"]):
         js.append((f"{cfg}/env-solved", "checks.C17", "run_rubik_env", {"cfg": cfg}))
+    # 'every state produced by RESET is reachable from the goal': the generators' post-conditions (harnesses shared with C10) - the reset
+    # board lies in the solvable class (permutation parity == blank distance parity) for every key; the scrambled cube is the fold of
+    # legal moves over the drawn actions
+    for cfg in ["SlidingTilePuzzle@2", "SlidingTilePuzzle@3"]:
+        js.append((f"{cfg}/reset-solvable", "checks.C10", "run_inv_reset", {"cfg": cfg}))
+    for n in ([2, 3] if tier == "quick" else [2, 3, 4]):
+        js.append((f"sliding-walk/{n}", "checks.C10", "run_sliding_walk", {"n": n}))
+        js.append((f"rubik-scramble/{n}", "checks.C10", "run_rubik_scramble", {"n": n}))
     return js
